@@ -64,7 +64,9 @@ def params(g, fac):
         x0 = g.q(F(3, 10), F(6, 10)); x1 = x0 + g.q(F(15, 100), F(35, 100)); x2 = x1 + g.q(F(2, 10), F(4, 10))
         x3 = x2 + g.q(F(1, 2), 1)
         ylow = g.r.choice([F(0), g.q(0, F(15, 100))])
-        ub = (1 - ylow) / (x2 - x1)
+        # documented: 0 <= plateauSlope < 1/(lce3-lce2); enforced by the code: < (1-shoulderVal)/(lce2-lce1).
+        # Both must hold for the parameters to be "inside the documented domain" and accepted.
+        ub = min((1 - ylow) / (x2 - x1), 1 / (x3 - x2))
         dydx = g.r.choice([F(0), g.q(0, F(6, 10)) * ub])
         return [x0, x1, x2, x3, ylow, dydx, g.curv()]
     if fac in ("fv", "fvinv"):
